@@ -74,6 +74,16 @@ def main():
         "notes": "See DESIGN.md. known_findings.json lists genuine defects recorded or fixed.",
         "not_applicable": na,
     }
+    # known_findings.json is assembled (at build time, never at check time) from
+    # the per-property fragments in known_findings.d/
+    frag_dir = os.path.join(VERIF, "known_findings.d")
+    findings = []
+    for fn in sorted(os.listdir(frag_dir)):
+        if fn.endswith(".json"):
+            findings += json.load(open(os.path.join(frag_dir, fn)))["findings"]
+    with open(os.path.join(VERIF, "known_findings.json"), "w") as f:
+        json.dump({"findings": findings}, f, indent=1)
+        f.write("\n")
     with open(os.path.join(VERIF, "MANIFEST.json"), "w") as f:
         json.dump(man, f, indent=1)
         f.write("\n")
